@@ -124,6 +124,16 @@ EXPRS_FAIL = ['nope', 'a / 0', 'd["missing"]', 'd[1]', 'lst[99]', 'o.nothing', '
               'import os', 'a = 1', "boom('RecursionError', 't')", "boom('MemoryError', 'x')", "boom('StopIteration', 'z')"]
 
 
+# expressions that use a frame local inside a lambda body / generator expression of their own: at that line of the
+# program they have a value; known finding C10/nested-scope-hides-locals — generated only in the `nested` stream
+NESTED_EXPRS = ['(lambda q: q + a)(1)', 'any(x < a for x in lst)', 'sum(v * a for v in lst)', '(lambda: s)()',
+                'max(x + a for x in lst)', 'list(x for x in lst if x < a)', 'sorted(lst, key=lambda v: v * a)',
+                '(lambda: o.name)()', 'sum(1 for _ in lst if s)']
+NESTED_FIELDS = [e for e in NESTED_EXPRS if ':' not in e]
+FINDING_NESTED = 'C10/nested-scope-hides-locals'
+FINDING_FAILWATCH = 'C10/failing-watch-is-a-value'
+
+
 def field_ok(f):
     """usable as a `{field}` of a log template: no `{ } ! :` outside square brackets, brackets closed"""
     inbr = False
@@ -137,7 +147,7 @@ def field_ok(f):
     return not inbr and f.strip() != ''
 
 
-def gen_scope(rng):
+def gen_scope(rng, nested=False):
     names = []
     g = {'GNUM': 42, 'GSTR': 'glob', 'GLIST': [7, 8, 9], 'GOBJ': {'obj': {'name': 'gob'}}}
     loc = [['a', 5], ['s', 'text'], ['lst', [3, 1, 2]], ['d', {'k': 'v', 'n': 7}], ['o', {'obj': {'name': 'bob', 'age': 3}}]]
@@ -175,6 +185,27 @@ def gen_scope(rng):
         case['metric'] = {'expr': rng.choice(['a', 'GNUM', 'GNUM + a', 'len(lst)', 'nope', 'uuid', 'GSTR', 'time_ns()']),
                           'labels': [[k, rng.choice(['GSTR', 's', 'nope', 'uuid', 'o.name', 'FrameType', 'n_0', 'a / 0'])]
                                      for k in rng.sample(['l1', 'l2', 'l3'], rng.randint(0, 3))]}
+    if nested:
+        # the same kinds of expression, now using frame locals inside a lambda / generator expression: as a watch, as
+        # the condition, as a log field, as metric value and label; and sentinel names read through a lambda
+        case['stream'] = 'nested'
+        have = {k for k, _ in params + loc}
+        pick = [e for e in NESTED_EXPRS if set(X.nested_local_uses(e, have))]
+        case['nested_names'] = [n for n in names if rng.random() < 0.6]
+        case['watches'] += ['(lambda: %s)()' % n for n in case['nested_names']]
+        case['watches'] += rng.sample(pick, min(len(pick), rng.randint(1, 3)))
+        slot = rng.random()
+        if slot < 0.3 and 'a' in have and 'lst' in have:
+            case['condition'] = rng.choice(['any(x < a for x in lst)', '(lambda: a > 3)()'])
+        elif slot < 0.6:
+            fpick = [e for e in pick if e in NESTED_FIELDS]
+            if fpick:
+                case['log_fields'] = (case.get('log_fields') or []) + [rng.choice(fpick)]
+        elif slot < 0.9 and 'a' in have and 'lst' in have:
+            case['metric'] = {'expr': 'sum(v * a for v in lst)', 'labels': [['l1', 'max(x + a for x in lst)'], ['l2', 'GSTR']]}
+    elif rng.random() < 0.15 and case['via'] == 'mock':
+        # the action's variable budget is tiny: the frame and the earlier watches use it up
+        case['limits'] = {'MAX_VARIABLES': rng.choice([0, 1, 2, 3, 5])}
     return case
 
 
@@ -227,6 +258,8 @@ def gen(rng, tier):
         k += 1
         if k % 13 == 0:
             yield gen_conc(rng, k // 13)
+        elif k % 20 == 0:
+            yield gen_scope(rng, nested=True)
         elif k % 7 == 0:
             yield gen_multi(rng)
         elif k % 4 == 0:
@@ -592,6 +625,15 @@ def run_scope(case):
             m = case['metric']
             metrics = [MetricDefinition('m', 'GAUGE', [LabelExpression(k, None, e) for k, e in m['labels']], m['expr'])]
         trig = build_trigger('tp1', name + '.py', line, args, list(case['watches']), metrics)
+        if case.get('limits'):
+            from deep.api.tracepoint.trigger import LocationAction, Trigger, LineLocation, Location
+            acts = []
+            for a in trig.actions:
+                cfg = dict(a.config)
+                if a.action_type == LocationAction.ActionType.Snapshot:
+                    cfg.update(case['limits'])
+                acts.append(LocationAction(a.id, a.condition, cfg, a.action_type))
+            trig = Trigger(LineLocation(name + '.py', line, Location.Position.START), acts)
         rig.install([trig])
         obs = {}
         if case['via'] == 'real':
@@ -730,6 +772,13 @@ def oracle(case, obs):
                      f'limits allow the hit; limits are checked first)')
         return v
     g, loc = scope_reference(case)
+    have = set(loc)
+
+    def nested(e):
+        return bool(e) and bool(X.nested_local_uses(e, have))
+
+    def tag(fid, msg):
+        return 'KF[%s] %s' % (fid, msg)
     cond = case.get('condition')
     should = True
     if cond is not None and cond.strip():
@@ -738,7 +787,9 @@ def oracle(case, obs):
     if case['via'] == 'real' and (obs.get('host_ret') != 0 or not obs.get('trace_kept')):
         v.append(f'host disturbed: returned {obs.get("host_ret")!r}, trace kept {obs.get("trace_kept")}')
     if (obs['snapshots'] == 1) != should:
-        v.append(f'condition {cond!r}: collected {obs["snapshots"]} snapshot(s), expected {1 if should else 0}')
+        msg = f'condition {cond!r}: collected {obs["snapshots"]} snapshot(s), expected {1 if should else 0}'
+        v.append(tag(FINDING_NESTED, msg + ' (the condition uses a frame local inside a lambda / generator expression)')
+                 if nested(cond) else msg)
         return v
     if not should:
         if obs['logged'] or obs['metric_calls']:
@@ -750,34 +801,101 @@ def oracle(case, obs):
         v.append(f'{len(obs["watches"])} watch results for {len(exprs)} expressions')
         return v
     for (e, src), w in zip(exprs, obs['watches']):
-        o = X.outcome(e, g, loc)
+        o = X.outcome(e, g, loc)          # what the expression gives at that line of the program
         if w['expr'] != e or w['source'] != src:
             v.append(f'watch result for {w["expr"]!r}/{w["source"]} where {e!r}/{src} was expected')
             continue
-        if w['error'] is not None or w.get('dangling'):
-            v.append(f'expression {e!r}: result has error {w["error"]!r} / dangling id')
+        if case.get('limits') and w['error'] == 'variable limit reached' and w['type'] is None:
+            continue                       # the collection bound (C05), reported on the expression it hits
+        if w.get('dangling'):
+            v.append(f'expression {e!r}: result points to a variable that is not in the snapshot')
             continue
-        if w['type'] != o['ty']:
-            v.append(f'expression {e!r} in the frame is {o["ty"]} ({o["text"]!r}) but the agent reports {w["type"]} '
-                     f'({w["value"]!r})')
-        elif (o['failed'] or o['ty'] in X.SIMPLE_TYPES) and w['value'] != o['text']:
-            v.append(f'expression {e!r}: value {w["value"]!r}, expected {o["text"]!r}')
+        if o['failed']:
+            # the statement: a failing expression yields an ERROR result (error text = its error, no value)
+            if w['error'] == o['text'] and w['type'] is None:
+                continue
+            msg = (f'failing expression {e!r} ({o["ty"]}: {o["text"]!r}) is reported as error={w["error"]!r} '
+                   f'value={w["type"]} {w["value"]!r}; expected an error result carrying {o["text"]!r}')
+            if w['error'] is None and w['type'] == o['ty'] and w['value'] == o['text']:
+                v.append(tag(FINDING_FAILWATCH, msg + ' (the error is there, but as a good result whose variable is '
+                                                      'the exception object)'))
+            else:
+                v.append(msg)
+            continue
+        bad = None
+        if w['error'] is not None:
+            bad = f'expression {e!r}: result has error {w["error"]!r}, at that line it is {o["ty"]} {o["text"]!r}'
+        elif w['type'] != o['ty']:
+            bad = (f'expression {e!r} at that line is {o["ty"]} ({o["text"]!r}) but the agent reports {w["type"]} '
+                   f'({w["value"]!r})')
+        elif o['ty'] in X.SIMPLE_TYPES and w['value'] != o['text']:
+            bad = f'expression {e!r}: value {w["value"]!r}, expected {o["text"]!r}'
+        if bad:
+            v.append(tag(FINDING_NESTED, bad + ' (it uses a frame local inside a lambda / generator expression)')
+                     if nested(e) else bad)
     if case.get('log_fields'):
         exp = '[deep] ' + ' | '.join('%d=%s' % (i, X.outcome(f, g, loc)['text']) for i, f in enumerate(case['log_fields']))
         if obs['logged'] != [exp] or obs['log'] != exp:
-            v.append(f'log message {obs["logged"]!r} / snapshot {obs["log"]!r}, expected {exp!r}')
+            msg = f'log message {obs["logged"]!r} / snapshot {obs["log"]!r}, expected {exp!r}'
+            v.append(tag(FINDING_NESTED, msg) if any(nested(f) for f in case['log_fields']) else msg)
     if case.get('metric'):
         m = case['metric']
-        o = X.outcome(m['expr'], g, loc)
+        val, failed = X.at_line(m['expr'], g, loc)
         try:
-            val = float(eval(m['expr'], dict(g), dict(loc)))
-        except BaseException:  # noqa: B902
+            val = 1.0 if failed else float(val)
+        except Exception:   # noqa: B902
             val = 1.0
         labels = sorted({k: X.outcome(e, g, loc)['text'] for k, e in m['labels']}.items())
         exp = [['gauge', 'm', labels, repr(val)]]
         if obs['metric_calls'] != exp:
-            v.append(f'metric calls {obs["metric_calls"]!r}, expected {exp!r}')
+            msg = f'metric calls {obs["metric_calls"]!r}, expected {exp!r}'
+            v.append(tag(FINDING_NESTED, msg) if nested(m['expr']) or any(nested(e) for _, e in m['labels']) else msg)
     return v
+
+
+def known_finding(case, obs):
+    """the case is an instance of a recorded finding iff it has the finding's STRUCTURE (a frame local used inside a
+    nested scope of an expression / a watch or log field that fails) and every violation the oracle reports on it is of
+    that finding's kind — any other violation on the same case stays a violation."""
+    if case.get('kind') != 'scope':
+        return None
+    v = oracle(case, obs)
+    ids = []
+    for m in v:
+        if not m.startswith('KF['):
+            return None
+        ids.append(m[3:m.index(']')])
+    g, loc = scope_reference(case)
+    have = set(loc)
+    allx = list(case['watches']) + list(case.get('log_fields') or []) + [case.get('condition') or ''] + \
+        ([case['metric']['expr']] + [e for _, e in case['metric']['labels']] if case.get('metric') else [])
+    struct = set()
+    if any(X.nested_local_uses(e, have) for e in allx if e):
+        struct.add(FINDING_NESTED)
+    if any(X.outcome(e, g, loc)['failed'] for e in list(case['watches']) + list(case.get('log_fields') or [])):
+        struct.add(FINDING_FAILWATCH)
+    ids = [i for i in ids if i in struct]
+    if not ids or len(ids) != len(v):
+        return None
+    return FINDING_NESTED if FINDING_NESTED in ids else ids[0]
+
+
+def known_replays():
+    return [
+        (FINDING_NESTED,
+         'a frame local used inside a lambda / generator expression of a watch, condition, log field or metric expression '
+         'is a NameError (or the global of the same name) although it is visible at that line',
+         {'kind': 'scope', 'stream': 'nested', 'via': 'real', 'globals': {'a': 'G:a'}, 'params': [],
+          'locals': [['a', 5], ['lst', [3, 1, 2]], ['s', 'text']], 'names': [], 'nested_names': [],
+          'watches': ['(lambda q: q + a)(1)', 'any(x < a for x in lst)', '(lambda: s)()', 'a + 1'],
+          'condition': None, 'frame_type': None, 'log_fields': ['sum(v * 2 for v in lst if s)'],
+          'metric': {'expr': 'sum(len(s) for _ in lst)', 'labels': [['l1', 'max(x for x in lst if s)']]}}),
+        (FINDING_FAILWATCH,
+         'a watch that fails to evaluate is reported as a good result whose variable is the exception object '
+         '(WatchResult.error empty), not as an error result',
+         {'kind': 'scope', 'via': 'mock', 'globals': {}, 'params': [], 'locals': [['a', 5]], 'names': [],
+          'watches': ['a + 1', 'nope', 'a / 0'], 'condition': None, 'frame_type': 'no_frame'}),
+    ]
 
 
 def name_bindings(case):
@@ -788,6 +906,8 @@ def name_bindings(case):
     for n in case['names']:
         rows.append({'n': n, 'locals': n in loc, 'globals': n in case['globals'], 'builtins': hasattr(_builtins, n),
                      'agent': hasattr(tc, n)})
+    for n in case.get('nested_names') or []:
+        rows.append(dict(rows[case['names'].index(n)], nested=True))
     return rows
 
 
@@ -798,7 +918,8 @@ def model_request(case, obs):
         reqs = []
         for i in range(2):
             g, loc = conc_reference(case, i)
-            reqs.append({'exprs': case['fields'], 'oracle': [{'e': f, 'o': X.outcome(f, g, loc)} for f in set(case['fields'])]})
+            reqs.append({'exprs': case['fields'], 'source': 'LOG',
+                         'oracle': [{'e': f, 'o': X.eval_outcome(f, g, loc)} for f in set(case['fields'])]})
         return {'op': 'evalallN', 'threads': reqs}
     if case['kind'] == 'multi':
         return {'op': 'runN', 'runs': [model_request(hc, obs)['runs'][0] for hc in multi_as_histories(case)]}
@@ -865,10 +986,11 @@ def compare(case, obs, resp):
     by_expr = {}
     for w in obs['watches']:
         by_expr.setdefault(w['expr'], w)
-    for n, r in zip(case['names'], resp['resolved']):
-        w = by_expr.get(n)
-        if w is None:
-            continue
+    occurrences = [(n, n) for n in case['names']] + [(n, '(lambda: %s)()' % n) for n in case.get('nested_names') or []]
+    for (n, expr), r in zip(occurrences, resp['resolved']):
+        w = by_expr.get(expr)
+        if w is None or (w['type'] is None and w['error'] == 'variable limit reached'):
+            continue                     # not evaluated / its value could not be recorded (budget)
         got = observed_binding(case, n, w)
         if got != r:
             d.append(f'name {n}: model resolves to {r}, implementation shows {got} ({w["type"]} {w["value"]!r})')
@@ -886,7 +1008,8 @@ def label(case, obs):
         return f"history/{case['stream']}/{case['action']}{'@entry' if case.get('entry') else ''}/" + \
             ('blank' if blank(case['condition']) else 'cond') + \
             '/' + ('none' if n == 0 else 'all' if n == len(f) else 'some')
-    return f"scope/{case['via']}/" + ('fired' if obs.get('snapshots') else 'rejected')
+    return f"scope/{case.get('stream', 'limits' if case.get('limits') else 'main')}/{case['via']}/" + \
+        ('fired' if obs.get('snapshots') else 'rejected')
 
 
 def nontrivial(case, obs):
